@@ -68,7 +68,7 @@ def _package_script(name, salt, tools, weak=()):
 def gen_project(rng, nmin=3, nmax=7, features=None):
     """features: set of enabled generator features (swarm style)."""
     allf = ["import", "checkoutscript", "vars", "provideVars", "tools", "classes", "provideDeps",
-            "weak", "depenv", "multi", "shared", "nobuild", "diamond", "forward"]
+            "weak", "depenv", "multi", "shared", "nobuild", "diamond", "forward", "include"]
     if features is None:
         features = {f for f in allf if rng.random() < 0.6}
     n = rng.randint(nmin, nmax)
@@ -149,6 +149,13 @@ def gen_project(rng, nmin=3, nmax=7, features=None):
             r["provideDeps"] = [rng.choice(r["depends"])["name"]]
         if "classes" in features and model["classes"] and rng.random() < 0.5:
             r["inherit"] = [rng.choice(sorted(model["classes"]))]
+        if ("include" in features or "include_files" in features) and rng.random() < 0.45:
+            # script include with a glob that matches several files; "'" (literal) costs no
+            # process at run time, "<" and "@" (temporary files) only in graph-only checks
+            r["include"] = {"dir": "inc_" + name,
+                            "mode": rng.choice(["'", "<", "@"]) if "include_files" in features else "'",
+                            "files": {"%s%d.cfg" % (rng.choice("abcxyz"), i): "cfg-%s-%d-%d" % (name, i, rng.randrange(1000))
+                                      for i in range(rng.randint(2, 4))}}
         if "fingerprint" in features and rng.random() < 0.4:
             r["fingerprint"] = True
         if "nonreloc" in features and rng.random() < 0.25:
@@ -311,6 +318,16 @@ def _yaml_recipe(name, r, model):
         if r.get("fingerprint"):
             d["buildScript"] += 'IFS= read -r h < "%s"\necho "built-on-host=$h" >> b-%s.txt\n' % (hf, r["salt"]["build"])
     d["packageScript"] = _package_script(name, r["salt"]["package"], r["packageTools"], r["buildVarsWeak"])
+    inc = r.get("include")
+    if inc and inc["files"]:
+        pat = "%s/*.cfg" % inc["dir"]
+        out = "p-%s.txt" % r["salt"]["package"]
+        if inc["mode"] == "'":
+            d["packageScript"] += "INC=$<'%s'>\necho \"include: $INC\" >> %s\n" % (pat, out)
+        elif inc["mode"] == "<":
+            d["packageScript"] += "while IFS= read -r l; do echo \"include: $l\" >> %s; done < $<<%s>>\n" % (out, pat)
+        else:
+            d["packageScript"] += "for f in $<@%s@>; do IFS= read -r l < \"$f\"; echo \"include: $l\" >> %s; done\n" % (pat, out)
     if r["buildTools"] or r.get("inhTools"):
         d["buildTools"] = sorted(set(r["buildTools"]) | set(r.get("inhTools", [])))
     if r["packageTools"]:
@@ -362,6 +379,11 @@ def files_of(model, extra_config=None):
         out["classes/%s.yaml" % name] = _yaml_class(name, c)
     for p, content in model["sources"].items():
         out[p] = content
+    for name, r in model["recipes"].items():
+        inc = r.get("include")
+        if inc:
+            for fn, content in inc["files"].items():
+                out["recipes/%s/%s" % (inc["dir"], fn)] = content + "\n"
     return out
 
 class StampClock:
@@ -398,7 +420,7 @@ def materialise(model, root, clock=None, prev=None, extra_config=None):
 
 EDIT_KINDS = ["salt", "var_value", "var_list", "default_env", "dep_add", "dep_remove", "dep_env",
               "provide_var", "src_modify", "src_add", "src_delete", "tool_libs", "class_salt", "revert",
-              "use_toggle", "dep_reorder"]
+              "use_toggle", "dep_reorder", "inc_modify", "inc_add"]
 
 CONTENT_EDITS = ["src_modify", "src_modify", "src_add", "src_delete"]
 
@@ -419,6 +441,12 @@ def gen_edit(rng, model, history, kinds=None, value_pool=None):
             if step == "build" and not r["build"]:
                 continue
             return {"kind": "salt", "recipe": r_name, "step": step, "value": "%x" % rng.getrandbits(24)}
+        if kind == "inc_modify" and r.get("include") and r["include"]["files"]:
+            fn = rng.choice(sorted(r["include"]["files"]))
+            return {"kind": "inc_modify", "recipe": r_name, "file": fn, "content": "cfgm-%d" % rng.randrange(10000)}
+        if kind == "inc_add" and r.get("include"):
+            return {"kind": "inc_add", "recipe": r_name, "file": "%s%d.cfg" % (rng.choice("abcxyz"), rng.randrange(10, 99)),
+                    "content": "cfga-%d" % rng.randrange(10000)}
         if kind == "var_value" and r["environment"]:
             v = rng.choice(sorted(r["environment"]))
             return {"kind": "var_value", "recipe": r_name, "var": v, "value": val("n")}
@@ -498,6 +526,11 @@ def apply_edit(model, edit, history):
             return m
         if k == "class_salt":
             m["classes"][edit["cls"]]["salt"] = edit["value"]
+            return m
+        if k in ("inc_modify", "inc_add"):
+            inc = m["recipes"][edit["recipe"]].get("include")
+            if inc and (k == "inc_add" or edit["file"] in inc["files"]):
+                inc["files"][edit["file"]] = edit["content"]
             return m
         if k in ("src_modify", "src_add"):
             if k == "src_modify" and edit["path"] not in m["sources"]:
